@@ -581,7 +581,10 @@ Fixpoint steps_ok (ss : sstate) (s : state) (evs : list event) : bool :=
   | [] => true
   | ev :: r => step_ok ss s ev && steps_ok (snext ss ev) (snd (step s ev)) r
   end.
-Definition in_domain (evs : list event) : bool := single_engine None evs && steps_ok sinit init_state evs.
+(** with a per-class session singleton, a configuration that every activate() resets and no Builder that caches its
+    session, the session clause needs no one-engine restriction *)
+Definition multi_mode : bool := negb (f_singleton_global fa) && f_reset_config fa && is_nil (f_cached fa).
+Definition in_domain (evs : list event) : bool := (single_engine None evs || multi_mode) && steps_ok sinit init_state evs.
 
 (** domain for everything except the session: any number of engines, any switching *)
 Definition step_ok0 (ss : sstate) (s : state) (ev : event) : bool :=
